@@ -312,6 +312,19 @@ func c17Required(w *World, r *Report) {
 		n := 0
 		for i, rp := range g.classifyReturns() {
 			if rp.Class != RetSuccess {
+				// `return …, err` with VerifyChart's own error: a success exactly when the verification succeeded
+				v := rp.Val
+				for d := 0; d < 4; d++ {
+					inner, ok := nilPreservingArg(v)
+					if !ok {
+						break
+					}
+					v = inner
+				}
+				if ev := errResult(call); ev != nil && v == ev && g.Reachable()[call.Block()] {
+					n++
+					r.OK("C17/REQUIRED", fmt.Sprintf("download/return#%d", i), w.InstrPos(rp.Ret), "with VerifyAlways this return hands back VerifyChart's own error: it is a success only if the verification succeeded")
+				}
 				continue
 			}
 			n++
